@@ -20,6 +20,7 @@ import EdzedModel.Gen.TranslatedCron
 import EdzedProofs.CronTie
 import EdzedModel.Gen.TranslatedCronCfg
 import EdzedProofs.CronCfgTie
+import EdzedProofs.IntervalTie
 
 namespace Edzed.Cron
 
@@ -1052,5 +1053,27 @@ theorem translated_croncfg_client_init_is_model :
     tsInit = [.getCron, .emptySpan, .refuseInitdef, .computeInitdef, .superInit] ∧
     tdInitDefaults = [("times", "None"), ("dates", "None"), ("weekdays", "None"), ("utc", "False")] ∧
     tsInitDefaults = [("span", "()"), ("utc", "False")] := ⟨rfl, rfl, rfl, rfl⟩
+
+/-- the `range_endpoints()` that `_event_reconfig` iterates over IS the function translated from timeinterval.py
+    (TrTie.translated_interval_range_endpoints_is_model in C13): on the microsecond scale of this model's
+    configuration its values are exactly `timeEndpoints` -/
+theorem translated_cron_time_endpoints_are_translated_range_endpoints (tzAware : Bool)
+    (iv : List Interval.Range) (t : Nat) :
+    t ∈ timeEndpoints (iv.map fun r => (Interval.timeUs r.1, Interval.timeUs r.2)) ↔
+      ∃ e ∈ Gen.TrIv.range_endpoints (IntervalTie.modelPrims tzAware) .time iv, Interval.timeUs e = t := by
+  have m := (IntervalTie.range_endpoints_eq tzAware .time iv).2
+  simp only [timeEndpoints, List.mem_flatMap, List.mem_map, List.mem_cons, List.not_mem_nil, or_false]
+  constructor
+  · rintro ⟨p, ⟨r, hr, rfl⟩, h⟩
+    rcases h with h | h
+    · refine ⟨r.1, (m _).2 ?_, h.symm⟩
+      simp only [Interval.rangeEndpoints, List.mem_flatMap]; exact ⟨r, hr, by simp⟩
+    · refine ⟨r.2, (m _).2 ?_, h.symm⟩
+      simp only [Interval.rangeEndpoints, List.mem_flatMap]; exact ⟨r, hr, by simp⟩
+  · rintro ⟨e, he, rfl⟩
+    have := (m e).1 he
+    simp only [Interval.rangeEndpoints, List.mem_flatMap, List.mem_cons, List.not_mem_nil, or_false] at this
+    obtain ⟨r, hr, h⟩ := this
+    exact ⟨_, ⟨r, hr, rfl⟩, by rcases h with h | h <;> simp [h]⟩
 
 end Edzed.TrTie
